@@ -1,6 +1,390 @@
-//! C15 harnesses (see /verif/kani/README.md for conventions)
+//! C15: all routes to the same operation give bit-identical results (forwarding pairs only).
+//!
+//! Shape: r1 = route_a(x), r2 = route_b(x) on identical symbolic inputs, compared limb by limb - no oracle.
+//! (1) `Uint<N>` / `Int<N>`, N in {1, 2}: trait method vs inherent method, operator by value / by reference / assigning
+//!     vs inherent, `Wrapping<T>` / `Checked<T>` vs inherent, constant-time vs `_vartime`.
+//! (2) `BoxedUint` of precision 64*N vs `Uint<N>`, N in {1, 2}: add, sub, neg, shifts, bit operations and queries,
+//!     comparisons; result precision of every boxed result as documented.
+//! Multiplication: one factor fully symbolic, the other iterated over the sparse alphabet
+//! {0, 1, 2, 3, 2^31, 2^(BITS-1)} (dense constants do not get through CBMC); squares: k * 2^e, k any u8.
 use crate::*;
+use crate::util::*;
 use crypto_bigint::*;
+use core::cmp::Ordering;
+use subtle::{Choice, ConstantTimeEq, ConstantTimeGreater, ConstantTimeLess, CtOption};
+
+fn opt<T>(o: CtOption<T>) -> Option<T> { Option::from(o) }
+fn ck<T>(v: T, valid: bool) -> Checked<T> { Checked(CtOption::new(v, Choice::from(valid as u8))) }
+
+/// limb-by-limb equality of two fixed integers
+fn same<const N: usize>(a: &Uint<N>, b: &Uint<N>) -> bool {
+    let (x, y) = (a.as_words(), b.as_words());
+    let mut i = 0; let mut r = true;
+    while i < N { r &= x[i] == y[i]; i += 1; }
+    r
+}
+fn same_opt<const N: usize>(a: Option<Uint<N>>, b: Option<Uint<N>>) -> bool {
+    match (a, b) { (Some(x), Some(y)) => same(&x, &y), (None, None) => true, _ => false }
+}
+/// boxed result has exactly N limbs (= the documented precision) and the same limbs as the fixed result
+fn bsame<const N: usize>(b: &BoxedUint, u: &Uint<N>) -> bool {
+    if b.nlimbs() != N || b.bits_precision() != 64 * N as u32 { return false; }
+    let (x, y) = (b.as_words(), u.as_words());
+    let mut i = 0; let mut r = true;
+    while i < N { r &= x[i] == y[i]; i += 1; }
+    r
+}
+fn bsame_opt<const N: usize>(b: Option<BoxedUint>, u: Option<Uint<N>>) -> bool {
+    match (b, u) { (Some(x), Some(y)) => bsame(&x, &y), (None, None) => true, _ => false }
+}
+fn boxed<const N: usize>(u: &Uint<N>) -> BoxedUint { BoxedUint::from_words(u.to_words()) }
+/// sparse multiplication alphabet for an N-limb integer
+fn alpha<const N: usize>(k: usize) -> Uint<N> {
+    let mut w = [0u64; N];
+    match k { 0 => {} 1 => w[0] = 1, 2 => w[0] = 2, 3 => w[0] = 3, 4 => w[0] = 1 << 31, _ => w[N - 1] = 1 << 63 }
+    Uint::from_words(w)
+}
+const NALPHA: usize = 6;
+
+// ------------------------------------------------------------------ (1) fixed: trait / operator / wrapper vs inherent
+fn uint_add_sub_neg_routes<const N: usize, S: Src>(s: &mut S) {
+    let (a, b): (Uint<N>, Uint<N>) = (Uint::from_words(s.words()), Uint::from_words(s.words()));
+    // core results
+    let (sum, carry) = a.adc(&b, Limb::ZERO);
+    let (diff, borrow) = a.sbb(&b, Limb::ZERO);
+    let neg = a.wrapping_neg();
+    assert!(same(&a.wrapping_add(&b), &sum) && same(&WrappingAdd::wrapping_add(&a, &b), &sum));
+    assert!(same(&a.wrapping_sub(&b), &diff) && same(&WrappingSub::wrapping_sub(&a, &b), &diff));
+    assert!(same(&WrappingNeg::wrapping_neg(&a), &neg) && same(&a.carrying_neg().0, &neg));
+    assert!(same_opt(opt(CheckedAdd::checked_add(&a, &b)), if carry.0 == 0 { Some(sum) } else { None }));
+    assert!(same_opt(opt(CheckedSub::checked_sub(&a, &b)), if borrow.0 == 0 { Some(diff) } else { None }));
+    // Wrapping<T>
+    let (wa, wb) = (Wrapping(a), Wrapping(b));
+    assert!(same(&(wa + wb).0, &sum) && same(&(wa + &wb).0, &sum) && same(&(&wa + wb).0, &sum) && same(&(&wa + &wb).0, &sum));
+    assert!(same(&(wa - wb).0, &diff) && same(&(wa - &wb).0, &diff) && same(&(&wa - wb).0, &diff) && same(&(&wa - &wb).0, &diff));
+    let mut w = wa; w += wb; assert!(same(&w.0, &sum)); let mut w = wa; w += &wb; assert!(same(&w.0, &sum));
+    let mut w = wa; w -= wb; assert!(same(&w.0, &diff)); let mut w = wa; w -= &wb; assert!(same(&w.0, &diff));
+    assert!(same(&(-wa).0, &neg) && same(&(-&wa).0, &neg));
+    // operators (they panic exactly where checked_* is none: C04)
+    if carry.0 == 0 {
+        assert!(same(&(a + b), &sum) && same(&(a + &b), &sum));
+        let mut y = a; y += b; assert!(same(&y, &sum)); let mut y = a; y += &b; assert!(same(&y, &sum));
+    }
+    if borrow.0 == 0 {
+        assert!(same(&(a - b), &diff) && same(&(a - &b), &diff));
+        let mut y = a; y -= b; assert!(same(&y, &diff)); let mut y = a; y -= &b; assert!(same(&y, &diff));
+    }
+}
+fn uint_checked_wrapper_routes<const N: usize, S: Src>(s: &mut S) {
+    let (a, b): (Uint<N>, Uint<N>) = (Uint::from_words(s.words()), Uint::from_words(s.words()));
+    let (va, vb) = (s.bool(), s.bool());
+    let (ca, cb) = (ck(a, va), ck(b, vb));
+    let add = if va && vb { opt(CheckedAdd::checked_add(&a, &b)) } else { None };
+    let sub = if va && vb { opt(CheckedSub::checked_sub(&a, &b)) } else { None };
+    assert!(same_opt(opt((ca + cb).0), add) && same_opt(opt((ca + &cb).0), add) && same_opt(opt((&ca + cb).0), add) && same_opt(opt((&ca + &cb).0), add));
+    assert!(same_opt(opt((ca - cb).0), sub) && same_opt(opt((ca - &cb).0), sub) && same_opt(opt((&ca - cb).0), sub) && same_opt(opt((&ca - &cb).0), sub));
+    let mut c = ca; c += cb; assert!(same_opt(opt(c.0), add)); let mut c = ca; c += &cb; assert!(same_opt(opt(c.0), add));
+    let mut c = ca; c -= cb; assert!(same_opt(opt(c.0), sub)); let mut c = ca; c -= &cb; assert!(same_opt(opt(c.0), sub));
+}
+fn uint_shift_routes<const N: usize, S: Src>(s: &mut S, left: bool) {
+    let a: Uint<N> = Uint::from_words(s.words()); let sh = s.u32();
+    if left {
+        let l: Option<Uint<N>> = a.overflowing_shl(sh).into();
+        let wl = a.wrapping_shl(sh);
+        // constant-time vs vartime
+        assert!(same_opt(a.overflowing_shl_vartime(sh).into(), l) && same(&a.wrapping_shl_vartime(sh), &wl));
+        // traits / Wrapping vs inherent
+        assert!(same_opt(opt(ShlVartime::overflowing_shl_vartime(&a, sh)), l) && same(&ShlVartime::wrapping_shl_vartime(&a, sh), &wl));
+        assert!(same(&WrappingShl::wrapping_shl(&a, sh), &wl));
+        assert!(same(&(Wrapping(a) << sh).0, &wl) && same(&(&Wrapping(a) << sh).0, &wl));
+        // in range: shl / shl_vartime / operators vs overflowing_shl
+        if let Some(l) = l {
+            assert!(same(&a.shl(sh), &l) && same(&a.shl_vartime(sh), &l) && same(&(a << sh), &l) && same(&(&a << sh), &l));
+            assert!(same(&(a << sh as i32), &l) && same(&(a << sh as usize), &l));
+            let mut y = a; y <<= sh; assert!(same(&y, &l));
+            assert!(same(&wl, &l));
+        }
+    } else {
+        let r: Option<Uint<N>> = a.overflowing_shr(sh).into();
+        let wr = a.wrapping_shr(sh);
+        assert!(same_opt(a.overflowing_shr_vartime(sh).into(), r) && same(&a.wrapping_shr_vartime(sh), &wr));
+        assert!(same_opt(opt(ShrVartime::overflowing_shr_vartime(&a, sh)), r) && same(&ShrVartime::wrapping_shr_vartime(&a, sh), &wr));
+        assert!(same(&WrappingShr::wrapping_shr(&a, sh), &wr));
+        assert!(same(&(Wrapping(a) >> sh).0, &wr) && same(&(&Wrapping(a) >> sh).0, &wr));
+        if let Some(r) = r {
+            assert!(same(&a.shr(sh), &r) && same(&a.shr_vartime(sh), &r) && same(&(a >> sh), &r) && same(&(&a >> sh), &r));
+            assert!(same(&(a >> sh as i32), &r) && same(&(a >> sh as usize), &r));
+            let mut y = a; y >>= sh; assert!(same(&y, &r));
+            assert!(same(&wr, &r));
+        }
+    }
+}
+fn uint_bit_routes<const N: usize, S: Src>(s: &mut S) {
+    let (a, b): (Uint<N>, Uint<N>) = (Uint::from_words(s.words()), Uint::from_words(s.words()));
+    let i = s.u32();
+    assert!(BitOps::leading_zeros(&a) == a.leading_zeros() && a.leading_zeros_vartime() == a.leading_zeros());
+    assert!(BitOps::leading_zeros_vartime(&a) == a.leading_zeros());
+    assert!(BitOps::bits(&a) == a.bits() && BitOps::bits_vartime(&a) == a.bits() && a.bits_vartime() == a.bits());
+    assert!(BitOps::trailing_zeros(&a) == a.trailing_zeros() && a.trailing_zeros_vartime() == a.trailing_zeros());
+    assert!(BitOps::trailing_zeros_vartime(&a) == a.trailing_zeros());
+    assert!(BitOps::trailing_ones(&a) == a.trailing_ones() && a.trailing_ones_vartime() == a.trailing_ones());
+    assert!(BitOps::trailing_ones_vartime(&a) == a.trailing_ones());
+    let bit = bool::from(a.bit(i));
+    assert!(a.bit_vartime(i) == bit && bool::from(BitOps::bit(&a, i)) == bit && BitOps::bit_vartime(&a, i) == bit);
+    if i < Uint::<N>::BITS {
+        let bv = s.bool();
+        let mut y = a; BitOps::set_bit(&mut y, i, Choice::from(bv as u8));
+        let mut z = a; BitOps::set_bit_vartime(&mut z, i, bv);
+        assert!(same(&y, &z));
+    }
+    let (and, or, xor, not) = (a.bitand(&b), a.bitor(&b), a.bitxor(&b), a.not());
+    assert!(same(&(a & b), &and) && same(&(a & &b), &and) && same(&(&a & b), &and) && same(&(&a & &b), &and) && same(&a.wrapping_and(&b), &and));
+    assert!(same(&(a | b), &or) && same(&(a | &b), &or) && same(&(&a | b), &or) && same(&(&a | &b), &or) && same(&a.wrapping_or(&b), &or));
+    assert!(same(&(a ^ b), &xor) && same(&(a ^ &b), &xor) && same(&(&a ^ b), &xor) && same(&(&a ^ &b), &xor) && same(&a.wrapping_xor(&b), &xor));
+    assert!(same(&!a, &not) && same(&(!Wrapping(a)).0, &not));
+    let mut y = a; y &= b; assert!(same(&y, &and)); let mut y = a; y |= &b; assert!(same(&y, &or)); let mut y = a; y ^= b; assert!(same(&y, &xor));
+    assert!(same(&(Wrapping(a) & Wrapping(b)).0, &and) && same(&(Wrapping(a) | Wrapping(b)).0, &or) && same(&(Wrapping(a) ^ Wrapping(b)).0, &xor));
+}
+fn uint_cmp_routes<const N: usize, S: Src>(s: &mut S) {
+    let (a, b): (Uint<N>, Uint<N>) = (Uint::from_words(s.words()), Uint::from_words(s.words()));
+    let o = a.cmp_vartime(&b);
+    assert!(Ord::cmp(&a, &b) == o && a.partial_cmp(&b) == Some(o));
+    assert!((a == b) == (o == Ordering::Equal) && bool::from(a.ct_eq(&b)) == (o == Ordering::Equal));
+    assert!(bool::from(a.ct_gt(&b)) == (o == Ordering::Greater) && bool::from(a.ct_lt(&b)) == (o == Ordering::Less));
+    assert!((a < b) == (o == Ordering::Less) && (a >= b) == (o != Ordering::Less));
+}
+/// part 0: wrapping family vs split_mul lo; part 1: checked family, saturating; part 2: operators vs split_mul (lo, hi == 0)
+fn uint_mul_routes<const N: usize, S: Src>(s: &mut S, part: u8) {
+    let a: Uint<N> = Uint::from_words(s.words());
+    let mut k = 0;
+    while k < NALPHA {
+        let b: Uint<N> = alpha(k);
+        let (lo, hi) = a.split_mul(&b);
+        let fits = bool::from(hi.is_zero());
+        if part == 0 {
+            assert!(same(&a.wrapping_mul(&b), &lo) && same(&WrappingMul::wrapping_mul(&a, &b), &lo));
+            assert!(same(&(Wrapping(a) * Wrapping(b)).0, &lo) && same(&(&Wrapping(a) * &Wrapping(b)).0, &lo));
+            let mut w = Wrapping(a); w *= Wrapping(b); assert!(same(&w.0, &lo));
+        } else if part == 1 {
+            assert!(same_opt(opt(CheckedMul::checked_mul(&a, &b)), if fits { Some(lo) } else { None }));
+            assert!(same_opt(opt((ck(a, true) * ck(b, true)).0), if fits { Some(lo) } else { None }));
+            assert!(same(&a.saturating_mul(&b), &if fits { lo } else { Uint::<N>::MAX }));
+        } else {
+            if fits {
+                assert!(same(&(a * b), &lo) && same(&(a * &b), &lo) && same(&(&a * b), &lo) && same(&(&a * &b), &lo));
+                let mut y = a; y *= b; assert!(same(&y, &lo)); let mut y = a; y *= &b; assert!(same(&y, &lo));
+            }
+        }
+        k += 1;
+    }
+}
+/// Int<N>: trait vs inherent, wrappers vs inherent, operators vs inherent
+fn int_routes<const N: usize, S: Src>(s: &mut S, part: u8) {
+    let (a, b): (Int<N>, Int<N>) = (Int::from_words(s.words()), Int::from_words(s.words()));
+    let isame = |x: &Int<N>, y: &Int<N>| same(x.as_uint(), y.as_uint());
+    if part == 1 { int_routes_neg_cmp(a, b); return; }
+    let (sum, ovf) = a.overflowing_add(&b);
+    let add: Option<Int<N>> = a.checked_add(&b).into();
+    assert!(add.is_some() != bool::from(ovf));
+    assert!(isame(&a.wrapping_add(&b), &sum) && isame(&WrappingAdd::wrapping_add(&a, &b), &sum));
+    match (opt(CheckedAdd::checked_add(&a, &b)), add) { (Some(x), Some(y)) => assert!(isame(&x, &y) && isame(&x, &sum)), (None, None) => {} _ => assert!(false) }
+    let diff = WrappingSub::wrapping_sub(&a, &b);
+    let sub = opt(CheckedSub::checked_sub(&a, &b));
+    let (wa, wb) = (Wrapping(a), Wrapping(b));
+    assert!(isame(&(wa + wb).0, &sum) && isame(&(&wa + &wb).0, &sum) && isame(&(wa - wb).0, &diff) && isame(&(&wa - &wb).0, &diff));
+    let mut w = wa; w += wb; assert!(isame(&w.0, &sum)); let mut w = wa; w -= &wb; assert!(isame(&w.0, &diff));
+    match (opt((ck(a, true) + ck(b, true)).0), add) { (Some(x), Some(y)) => assert!(isame(&x, &y)), (None, None) => {} _ => assert!(false) }
+    match (opt((ck(a, true) - ck(b, true)).0), sub) { (Some(x), Some(y)) => assert!(isame(&x, &y) && isame(&x, &diff)), (None, None) => {} _ => assert!(false) }
+    if let Some(t) = add { assert!(isame(&(a + b), &t) && isame(&(a + &b), &t)); let mut y = a; y += b; assert!(isame(&y, &t)); let mut y = a; y += &b; assert!(isame(&y, &t)); }
+    if let Some(t) = sub { assert!(isame(&(a - b), &t) && isame(&(a - &b), &t)); }
+}
+/// negation: checked / wrapping / overflowing agree; comparison routes agree
+fn int_routes_neg_cmp<const N: usize>(a: Int<N>, b: Int<N>) {
+    let isame = |x: &Int<N>, y: &Int<N>| same(x.as_uint(), y.as_uint());
+    let (n, no) = a.overflowing_neg();
+    assert!(isame(&a.wrapping_neg(), &n) && isame(&a.wrapping_neg_if(ConstChoice::TRUE), &n));
+    match Option::<Int<N>>::from(a.checked_neg()) { Some(x) => assert!(!bool::from(no) && isame(&x, &n)), None => assert!(bool::from(no)) }
+    let o = a.cmp_vartime(&b);
+    assert!(Ord::cmp(&a, &b) == o && a.partial_cmp(&b) == Some(o) && (a == b) == (o == Ordering::Equal));
+    assert!(bool::from(a.ct_eq(&b)) == (o == Ordering::Equal) && bool::from(a.ct_gt(&b)) == (o == Ordering::Greater) && bool::from(a.ct_lt(&b)) == (o == Ordering::Less));
+}
+
+// ------------------------------------------------------------------ (2) BoxedUint of 64*N bits vs Uint<N>
+fn boxed_add_sub_neg<const N: usize, S: Src>(s: &mut S) {
+    let (a, b): (Uint<N>, Uint<N>) = (Uint::from_words(s.words()), Uint::from_words(s.words()));
+    let c = s.u64();
+    let (x, y) = (boxed(&a), boxed(&b));
+    let (r, k) = x.adc(&y, Limb(c)); let (fr, fk) = a.adc(&b, Limb(c)); assert!(bsame(&r, &fr) && k.0 == fk.0);
+    let (r, k) = x.sbb(&y, Limb(c)); let (fr, fk) = a.sbb(&b, Limb(c)); assert!(bsame(&r, &fr) && k.0 == fk.0);
+    let mut r = x.clone(); let k = r.adc_assign(&y, Limb(c)); let (fr, fk) = a.adc(&b, Limb(c)); assert!(bsame(&r, &fr) && k.0 == fk.0);
+    let mut r = x.clone(); let k = r.sbb_assign(&y, Limb(c)); let (fr, fk) = a.sbb(&b, Limb(c)); assert!(bsame(&r, &fr) && k.0 == fk.0);
+    assert!(bsame(&x.wrapping_add(&y), &a.wrapping_add(&b)) && bsame(&x.wrapping_sub(&y), &a.wrapping_sub(&b)));
+    assert!(bsame(&x.wrapping_neg(), &a.wrapping_neg()));
+    assert!(bsame_opt(opt(x.checked_add(&y)), opt(CheckedAdd::checked_add(&a, &b))));
+    assert!(bsame_opt(opt(x.checked_sub(&y)), opt(CheckedSub::checked_sub(&a, &b))));
+}
+fn boxed_add_sub_ops<const N: usize, S: Src>(s: &mut S) {
+    let (a, b): (Uint<N>, Uint<N>) = (Uint::from_words(s.words()), Uint::from_words(s.words()));
+    let (x, y) = (boxed(&a), boxed(&b));
+    if let Some(t) = opt(CheckedAdd::checked_add(&a, &b)) {
+        assert!(bsame(&(&x + &y), &t) && bsame(&(x.clone() + y.clone()), &t) && bsame(&(&x + b), &t));
+        let mut r = x.clone(); r += &y; assert!(bsame(&r, &t)); let mut r = x.clone(); r += b; assert!(bsame(&r, &t));
+    }
+    if let Some(t) = opt(CheckedSub::checked_sub(&a, &b)) {
+        assert!(bsame(&(&x - &y), &t) && bsame(&(x.clone() - y.clone()), &t) && bsame(&(&x - b), &t));
+        let mut r = x.clone(); r -= &y; assert!(bsame(&r, &t)); let mut r = x.clone(); r -= b; assert!(bsame(&r, &t));
+    }
+}
+/// part 0: constant-time routes, part 1: vartime routes, part 2: shl / shr / operators in range
+fn boxed_shifts<const N: usize, S: Src>(s: &mut S, left: bool, part: u8) {
+    let a: Uint<N> = Uint::from_words(s.words()); let sh = s.u32();
+    let x = boxed(&a);
+    match (left, part) {
+        (true, 0) => {
+            let l: Option<Uint<N>> = a.overflowing_shl(sh).into();
+            let (v, o) = x.overflowing_shl(sh); assert!(bool::from(o) == l.is_none() && bsame(&v, &a.wrapping_shl(sh)));
+            assert!(bsame(&x.wrapping_shl(sh), &a.wrapping_shl(sh)));
+        }
+        (false, 0) => {
+            let r: Option<Uint<N>> = a.overflowing_shr(sh).into();
+            let (v, o) = x.overflowing_shr(sh); assert!(bool::from(o) == r.is_none() && bsame(&v, &a.wrapping_shr(sh)));
+            assert!(bsame(&x.wrapping_shr(sh), &a.wrapping_shr(sh)));
+        }
+        (true, 1) => {
+            assert!(bsame_opt(x.shl_vartime(sh), a.overflowing_shl_vartime(sh).into()));
+            assert!(bsame(&x.wrapping_shl_vartime(sh), &a.wrapping_shl_vartime(sh)));
+        }
+        (false, 1) => {
+            assert!(bsame_opt(x.shr_vartime(sh), a.overflowing_shr_vartime(sh).into()));
+            assert!(bsame(&x.wrapping_shr_vartime(sh), &a.wrapping_shr_vartime(sh)));
+        }
+        (true, _) => {
+            if let Some(l) = Option::<Uint<N>>::from(a.overflowing_shl(sh)) {
+                assert!(bsame(&x.shl(sh), &l) && bsame(&(&x << sh), &l));
+                let mut y = x.clone(); y <<= sh; assert!(bsame(&y, &l));
+            }
+        }
+        (false, _) => {
+            if let Some(r) = Option::<Uint<N>>::from(a.overflowing_shr(sh)) {
+                assert!(bsame(&x.shr(sh), &r) && bsame(&(&x >> sh), &r));
+                let mut y = x.clone(); y >>= sh; assert!(bsame(&y, &r));
+            }
+        }
+    }
+}
+fn boxed_bits<const N: usize, S: Src>(s: &mut S) {
+    let (a, b): (Uint<N>, Uint<N>) = (Uint::from_words(s.words()), Uint::from_words(s.words()));
+    let i = s.u32();
+    let (x, y) = (boxed(&a), boxed(&b));
+    assert!(x.leading_zeros() == a.leading_zeros() && x.bits() == a.bits() && x.bits_vartime() == a.bits_vartime());
+    assert!(x.trailing_zeros() == a.trailing_zeros() && x.trailing_zeros_vartime() == a.trailing_zeros_vartime());
+    assert!(x.trailing_ones() == a.trailing_ones() && x.trailing_ones_vartime() == a.trailing_ones_vartime());
+    assert!(bool::from(x.bit(i)) == bool::from(a.bit(i)) && x.bit_vartime(i) == a.bit_vartime(i));
+    assert!(x.bits_precision() == Uint::<N>::BITS && BitOps::bits_precision(&x) == BitOps::bits_precision(&a));
+    assert!(BitOps::bytes_precision(&x) == BitOps::bytes_precision(&a) && BitOps::log2_bits(&x) == BitOps::log2_bits(&a));
+    if i < Uint::<N>::BITS {
+        let bv = s.bool();
+        let mut p = x.clone(); BitOps::set_bit(&mut p, i, Choice::from(bv as u8));
+        let mut q = a; BitOps::set_bit(&mut q, i, Choice::from(bv as u8));
+        assert!(bsame(&p, &q));
+        let mut p = x.clone(); BitOps::set_bit_vartime(&mut p, i, bv);
+        assert!(bsame(&p, &q));
+    }
+}
+fn boxed_bitops<const N: usize, S: Src>(s: &mut S) {
+    let (a, b): (Uint<N>, Uint<N>) = (Uint::from_words(s.words()), Uint::from_words(s.words()));
+    let (x, y) = (boxed(&a), boxed(&b));
+    assert!(bsame(&x.bitand(&y), &a.bitand(&b)) && bsame(&(&x & &y), &a.bitand(&b)));
+    assert!(bsame(&x.bitor(&y), &a.bitor(&b)) && bsame(&(&x | &y), &a.bitor(&b)));
+    assert!(bsame(&x.bitxor(&y), &a.bitxor(&b)) && bsame(&(&x ^ &y), &a.bitxor(&b)));
+    assert!(bsame(&x.not(), &a.not()) && bsame(&!x.clone(), &a.not()));
+}
+fn boxed_cmp<const N: usize, S: Src>(s: &mut S) {
+    let (a, b): (Uint<N>, Uint<N>) = (Uint::from_words(s.words()), Uint::from_words(s.words()));
+    let (x, y) = (boxed(&a), boxed(&b));
+    assert!(x.cmp_vartime(&y) == a.cmp_vartime(&b) && Ord::cmp(&x, &y) == Ord::cmp(&a, &b) && x.partial_cmp(&y) == a.partial_cmp(&b));
+    assert!((x == y) == (a == b) && bool::from(x.ct_eq(&y)) == bool::from(a.ct_eq(&b)));
+    assert!(bool::from(x.ct_gt(&y)) == bool::from(a.ct_gt(&b)) && bool::from(x.ct_lt(&y)) == bool::from(a.ct_lt(&b)));
+    assert!(bool::from(x.is_zero()) == bool::from(Zero::is_zero(&a)) && bool::from(x.is_odd()) == bool::from(Integer::is_odd(&a)));
+}
+/// part 0: limbs of the widening boxed `mul` (precision 2N limbs, as documented) vs split_mul (lo, hi);
+/// part 1: wrapping_mul (inherent, trait); part 2: checked_mul; part 3: `&x * &y`
+fn boxed_mul<const N: usize, S: Src>(s: &mut S, part: u8) {
+    let a: Uint<N> = Uint::from_words(s.words());
+    let x = boxed(&a);
+    let mut k = 0;
+    while k < NALPHA {
+        let b: Uint<N> = alpha(k); let y = boxed(&b);
+        match part {
+            0 => {
+                let (lo, hi) = a.split_mul(&b);
+                let p = x.mul(&y);
+                assert!(p.nlimbs() == 2 * N);
+                let w = p.as_words();
+                let mut i = 0;
+                while i < N { assert!(w[i] == lo.as_words()[i] && w[N + i] == hi.as_words()[i]); i += 1; }
+            }
+            1 => { assert!(bsame(&x.wrapping_mul(&y), &a.wrapping_mul(&b)) && bsame(&WrappingMul::wrapping_mul(&x, &y), &a.wrapping_mul(&b))); }
+            2 => { assert!(bsame_opt(opt(x.checked_mul(&y)), opt(CheckedMul::checked_mul(&a, &b)))); }
+            _ => { if let Some(t) = opt(CheckedMul::checked_mul(&a, &b)) { assert!(bsame(&(&x * &y), &t)); } }
+        }
+        k += 1;
+    }
+}
 
 harnesses! {
+    // (1) fixed
+    fn c15_u64_add_sub_neg_routes(s) { uint_add_sub_neg_routes::<1, _>(s); }
+    fn c15_u128_add_sub_neg_routes(s) { uint_add_sub_neg_routes::<2, _>(s); }
+    fn c15_u64_checked_wrapper_routes(s) { uint_checked_wrapper_routes::<1, _>(s); }
+    fn c15_u128_checked_wrapper_routes(s) { uint_checked_wrapper_routes::<2, _>(s); }
+    #[kani::unwind(10)] fn c15_u64_shl_routes(s) { uint_shift_routes::<1, _>(s, true); }
+    #[kani::unwind(10)] fn c15_u64_shr_routes(s) { uint_shift_routes::<1, _>(s, false); }
+    #[kani::unwind(10)] fn c15_u128_shl_routes(s) { uint_shift_routes::<2, _>(s, true); }
+    #[kani::unwind(10)] fn c15_u128_shr_routes(s) { uint_shift_routes::<2, _>(s, false); }
+    fn c15_u64_bit_routes(s) { uint_bit_routes::<1, _>(s); }
+    fn c15_u128_bit_routes(s) { uint_bit_routes::<2, _>(s); }
+    fn c15_u64_cmp_routes(s) { uint_cmp_routes::<1, _>(s); }
+    fn c15_u128_cmp_routes(s) { uint_cmp_routes::<2, _>(s); }
+    fn c15_u64_mul_wrapping_routes(s) { uint_mul_routes::<1, _>(s, 0); }
+    fn c15_u64_mul_checked_routes(s) { uint_mul_routes::<1, _>(s, 1); }
+    fn c15_u64_mul_op_routes(s) { uint_mul_routes::<1, _>(s, 2); }
+    fn c15_u128_mul_wrapping_routes(s) { uint_mul_routes::<2, _>(s, 0); }
+    fn c15_u128_mul_checked_routes(s) { uint_mul_routes::<2, _>(s, 1); }
+    fn c15_u128_mul_op_routes(s) { uint_mul_routes::<2, _>(s, 2); }
+    fn c15_i64_add_sub_routes(s) { int_routes::<1, _>(s, 0); }
+    fn c15_i64_neg_cmp_routes(s) { int_routes::<1, _>(s, 1); }
+    fn c15_i128_add_sub_routes(s) { int_routes::<2, _>(s, 0); }
+    fn c15_i128_neg_cmp_routes(s) { int_routes::<2, _>(s, 1); }
+    // (2) BoxedUint vs Uint
+    fn c15_boxed_u64_add_sub_neg(s) { boxed_add_sub_neg::<1, _>(s); }
+    fn c15_boxed_u128_add_sub_neg(s) { boxed_add_sub_neg::<2, _>(s); }
+    fn c15_boxed_u64_add_sub_ops(s) { boxed_add_sub_ops::<1, _>(s); }
+    fn c15_boxed_u128_add_sub_ops(s) { boxed_add_sub_ops::<2, _>(s); }
+    #[kani::unwind(10)] fn c15_boxed_u64_shl_ct(s) { boxed_shifts::<1, _>(s, true, 0); }
+    #[kani::unwind(10)] fn c15_boxed_u64_shr_ct(s) { boxed_shifts::<1, _>(s, false, 0); }
+    #[kani::unwind(10)] fn c15_boxed_u64_shl_vartime(s) { boxed_shifts::<1, _>(s, true, 1); }
+    #[kani::unwind(10)] fn c15_boxed_u64_shr_vartime(s) { boxed_shifts::<1, _>(s, false, 1); }
+    #[kani::unwind(10)] fn c15_boxed_u64_shl_ops(s) { boxed_shifts::<1, _>(s, true, 2); }
+    #[kani::unwind(10)] fn c15_boxed_u64_shr_ops(s) { boxed_shifts::<1, _>(s, false, 2); }
+    #[kani::unwind(10)] fn c15_boxed_u128_shl_ct(s) { boxed_shifts::<2, _>(s, true, 0); }
+    #[kani::unwind(10)] fn c15_boxed_u128_shr_ct(s) { boxed_shifts::<2, _>(s, false, 0); }
+    #[kani::unwind(10)] fn c15_boxed_u128_shl_vartime(s) { boxed_shifts::<2, _>(s, true, 1); }
+    #[kani::unwind(10)] fn c15_boxed_u128_shr_vartime(s) { boxed_shifts::<2, _>(s, false, 1); }
+    #[kani::unwind(10)] fn c15t_boxed_u128_shl_ops(s) { boxed_shifts::<2, _>(s, true, 2); }
+    #[kani::unwind(10)] fn c15t_boxed_u128_shr_ops(s) { boxed_shifts::<2, _>(s, false, 2); }
+    fn c15_boxed_u64_bits(s) { boxed_bits::<1, _>(s); }
+    fn c15_boxed_u128_bits(s) { boxed_bits::<2, _>(s); }
+    fn c15_boxed_u64_bitops(s) { boxed_bitops::<1, _>(s); }
+    fn c15_boxed_u128_bitops(s) { boxed_bitops::<2, _>(s); }
+    fn c15_boxed_u64_cmp(s) { boxed_cmp::<1, _>(s); }
+    fn c15_boxed_u128_cmp(s) { boxed_cmp::<2, _>(s); }
+    fn c15_boxed_u64_mul_wide(s) { boxed_mul::<1, _>(s, 0); }
+    fn c15_boxed_u64_mul_wrapping(s) { boxed_mul::<1, _>(s, 1); }
+    fn c15_boxed_u64_mul_checked(s) { boxed_mul::<1, _>(s, 2); }
+    fn c15_boxed_u64_mul_op(s) { boxed_mul::<1, _>(s, 3); }
+    fn c15_boxed_u128_mul_wide(s) { boxed_mul::<2, _>(s, 0); }
+    fn c15t_boxed_u128_mul_wrapping(s) { boxed_mul::<2, _>(s, 1); }
+    fn c15t_boxed_u128_mul_checked(s) { boxed_mul::<2, _>(s, 2); }
+    fn c15t_boxed_u128_mul_op(s) { boxed_mul::<2, _>(s, 3); }
 }
